@@ -15,7 +15,7 @@ from ._pipes import PipeScenario, JoinScenario, flat, needs_clock, parse
 MOD = __name__
 
 PASS_THROUGH = ("map", "filter", "flatten", "pluck", "accumulate", "unique", "slice", "sliding_window")
-BUFFERING = ("buffer", "delay", "latest", "collect", "timed_window", "timed_window_unique", "map_async", "rate_limit")
+BUFFERING = ("buffer", "delay", "latest", "collect", "timed_window", "timed_window_unique", "map_async", "map_async_eager", "rate_limit")
 
 
 def _site(nodes):
@@ -83,8 +83,8 @@ class Chain(PipeScenario):
             name, a = parse(s)
             if name == "buffer":
                 return name, a[0]
-            if name == "map_async":
-                return name, a[0] + 1
+            if name in ("map_async", "map_async_eager"):
+                return "map_async", a[0] + 1
         return None, None
 
     def _check(self, final):
@@ -235,6 +235,9 @@ def plan(ctx):
         jobs.append((("chain", "buffer:%d" % n, "future", "await", n + 1, 2), 1))
         jobs.append((("chain", "map_async:%d" % n, "future", "await", n + 2, 1), 1 if T else 0))
         jobs.append((("chain", "map_async:%d" % n, "native", "burst", n + 2 if T else n + 1, 1), 0))
+        if n == 1 or T:
+            jobs.append((("chain", "map_async_eager:%d" % n, "sync", "burst", n + 3, 1), 0))
+        jobs.append((("chain", "map_async_eager:%d" % n, "sync", "await", n + 2, 1), 1 if n == 1 else 0))
         jobs.append((("zip", n, "future", "await", n + 2, 1), 2 if T else 1))
         jobs.append((("zip", n, "native", "await", n + 1, n + 1), 1))
         jobs.append((("zip", n, "future", "burst", n + 2, 1), 1))
